@@ -259,6 +259,12 @@ def check_history(mon, spec, out, refs, case):
                   mechanism='C08/cwd-or-argv-not-restored-after-' + ('failed' if rec['outcome'] == 'error' else 'successful') + '-run',
                   cwd_before=rec['cwd_before'][-40:], cwd_after=str(rec['cwd_after'])[-60:], argv_before=rec['argv_before'][:3],
                   argv_after=rec['argv_after'][:3], outcome=rec['outcome'], **wit)
+        # ---- the simulator's module-level / class-level / enum-member state is what it was after the first call
+        if 'global_state_changed' in rec:
+            ch = rec['global_state_changed']
+            mon.check('process-global-state-unchanged', not ch,
+                      mechanism='C08/process-global-state-changed-by-a-run:' + (ch[0]['name'] if ch else ''), changed=ch[:3],
+                      items=rec.get('global_state_items'), **wit)
         # ---- result = F(text at call time)
         if t is None:
             mon.check('result-is-function-of-input', rec['outcome'] == 'error',
@@ -352,7 +358,7 @@ def run(ctx):
                          'reference_outcomes': {'ok': sum(1 for r in refs.values() if r['outcome'] == 'ok'),
                                                 'error': sum(1 for r in refs.values() if r['outcome'] == 'error')},
                          'hash_seeds': HASHSEEDS})
-    ctx.required.update({'result-is-function-of-input': 300, 'cwd-and-argv-restored': 300})
+    ctx.required.update({'result-is-function-of-input': 300, 'cwd-and-argv-restored': 300, 'process-global-state-unchanged': 300})
     if not ctx.mon.viols and ctx.mon.notes.get('c08-failing-request-observed', 0) == 0:
         ctx.required['failing-request-observed'] = 1
     if not ctx.mon.viols and ctx.mon.notes.get('c08-request-ending-in-bare-sys-exit-observed', 0) == 0:
